@@ -266,7 +266,9 @@ class Cell(Module):
             ignore_index=True,
         )
 
-        n_nodes, data_inds, indices, indptr = comp_edges_to_indices(self._comp_edges)
+        n_nodes, data_inds, indices, indptr = comp_edges_to_indices(
+            self._comp_edges, min_n_nodes=int(self.cumsum_ncomp[-1])
+        )
         self._n_nodes = n_nodes
         self._data_inds = data_inds
         self._indices_jax_spsolve = indices
